@@ -291,3 +291,71 @@ Definition seen_step (s : list json) (e : ev) (x : ans) : option (list json) :=
   | EDeref _, AJson j => match to_type j with Ok t => Some (t :: s) | _ => Some s end
   | _, _ => Some s
   end.
+
+(* ---------------- C17: inbox forwarding happens only under its three conditions, once, unchanged ---------------- *)
+Record fstate := { f_exists : option bool;              (* the answer to Exists for the activity id *)
+                   f_created : nat;                     (* Create calls for the activity: 0, or 1 (2 = one that failed) *)
+                   f_cols : list (string * json);       (* the owned collections loaded (Get answers that are collections) *)
+                   f_asked : bool;                      (* MaxInboxForwardingRecursionDepth was consulted: the value search is on *)
+                   f_owned_value : bool;                (* Owns answered true during the value search *)
+                   f_filter : option (list string);     (* what FilterForwarding returned *)
+                   f_sent : bool }.
+Definition f0 : fstate := {| f_exists := None; f_created := 0; f_cols := []; f_asked := false; f_owned_value := false; f_filter := None; f_sent := false |}.
+
+Definition is_collection_value (t : json) : bool :=
+  (is_or_extends (type_name t) "OrderedCollection" && vhas t "orderedItems")
+  || (negb (is_or_extends (type_name t) "OrderedCollection") && is_or_extends (type_name t) "Collection" && vhas t "items").
+
+Definition fwd_step (a : json) (s : fstate) (e : ev) (x : ans) : option fstate :=
+  match e with
+  | EDb op args =>
+      if String.eqb op "Exists" then
+        match f_exists s with
+        | None => Some {| f_exists := match x with ABool b => Some b | _ => Some true end; f_created := f_created s; f_cols := f_cols s; f_asked := f_asked s;
+                          f_owned_value := f_owned_value s; f_filter := f_filter s; f_sent := f_sent s |}
+        | Some _ => None
+        end
+      else if String.eqb op "Create" then
+        match args, f_exists s, f_created s with
+        | [v], Some false, 0 => if jeqb v (canon a) then
+              Some {| f_exists := f_exists s; f_created := match x with AOk => 1 | _ => 2 end; f_cols := f_cols s; f_asked := f_asked s;
+                      f_owned_value := f_owned_value s; f_filter := f_filter s; f_sent := f_sent s |} else None
+        | _, _, _ => None
+        end
+      else if String.eqb op "Get" then
+        match args, x with
+        | [JStr i], AJson t => if is_collection_value t && negb (f_asked s) then
+              Some {| f_exists := f_exists s; f_created := f_created s; f_cols := f_cols s ++ [(i, t)]; f_asked := f_asked s;
+                      f_owned_value := f_owned_value s; f_filter := f_filter s; f_sent := f_sent s |} else Some s
+        | _, _ => Some s
+        end
+      else if String.eqb op "Owns" then
+        match x with
+        | ABool true => if f_asked s then Some {| f_exists := f_exists s; f_created := f_created s; f_cols := f_cols s; f_asked := true;
+                                                  f_owned_value := true; f_filter := f_filter s; f_sent := f_sent s |} else Some s
+        | _ => Some s
+        end
+      else if String.eqb op "Update" || String.eqb op "Delete" || String.eqb op "SetOutbox" || String.eqb op "SetInbox" then None
+      else Some s
+  | EApp n args =>
+      if String.eqb n "MaxInboxForwardingRecursionDepth" then
+        match f_cols s with [] => None | _ => Some {| f_exists := f_exists s; f_created := f_created s; f_cols := f_cols s; f_asked := true;
+                                                      f_owned_value := f_owned_value s; f_filter := f_filter s; f_sent := f_sent s |} end
+      else if String.eqb n "FilterForwarding" then
+        if f_owned_value s && jsons_eqb args [JArr (map (fun c => JStr (fst c)) (f_cols s)); canon a] then
+          Some {| f_exists := f_exists s; f_created := f_created s; f_cols := f_cols s; f_asked := f_asked s;
+                  f_owned_value := f_owned_value s; f_filter := match x with AIris l => Some l | _ => None end; f_sent := f_sent s |}
+        else None
+      else Some s
+  | EBatchDeliver p r =>
+      match f_filter s with
+      | Some to_send =>
+          if Nat.eqb (f_created s) 1 && negb (f_sent s) && jeqb p (canon (streams_serialize a)) &&
+             match forwarding_recipients to_send (f_cols s) with Ok want => list_eqb r want | _ => false end
+          then Some {| f_exists := f_exists s; f_created := f_created s; f_cols := f_cols s; f_asked := f_asked s;
+                       f_owned_value := f_owned_value s; f_filter := f_filter s; f_sent := true |}
+          else None
+      | None => None
+      end
+  | _ => Some s
+  end.
